@@ -13,6 +13,7 @@ import (
 	"os"
 	"path/filepath"
 	"sort"
+	"strconv"
 	"strings"
 	"sync"
 	"time"
@@ -196,6 +197,14 @@ func (r *runner) run(ops []Op, conns int, st *Stats, live *gen.G, gen1 func() (O
 		}
 		done = append(done, op)
 		argv := op.bytes()
+		if len(argv) == 2 && string(argv[0]) == "VERIF-SLEEP" {
+			ms, _ := strconv.Atoi(string(argv[1]))
+			if ms > 0 && ms <= 500 {
+				time.Sleep(time.Duration(ms) * time.Millisecond)
+			}
+			i++
+			continue
+		}
 		if len(argv) == 1 && string(argv[0]) == "VERIF-SAVE" {
 			var err error
 			if f := guarded("saving the store", i, func() { err = vs.Save() }); f != nil {
